@@ -179,6 +179,13 @@ def rule_pairs(chk):
         is_snap = lambda v: isinstance(v, ast.Call) and (unparse(v.func) in ("current_action", "_ACTION_CONTEXT.get"))
         if any(is_snap(v) for m_, v in snap_sites):
             by_value.append((f, c))
+            shared_slot = sorted({m_.name for m_, v in snap_sites if is_snap(v) and m_.name in ("run", "context")}) if common.is_self_attr(arg) else []
+            if shared_slot and not witness:
+                witness = True
+                chk.bad("C04.pair", "%s:per-entry-state-is-per-entry" % f.fq, chk.where(f, c.lineno),
+                        "the action to go back to is kept in ONE attribute of the action (self.%s), written by %s: run() and context() can be entered again while already entered "
+                        "(nested use, two tasks or threads inside the same long-lived action), each entry overwrites the slot, and leaving then installs the wrong action "
+                        "(the pinned code keeps that per-entry state in a local of run()/context())" % (arg.attr, "/".join(shared_slot)))
             if any(is_snap(v) and m_.name == "__init__" for m_, v in snap_sites):
                 witness = True
                 chk.bad("C04.pair", "%s:restores-what-was-current-at-entry" % f.fq, chk.where(f, c.lineno),
